@@ -185,8 +185,9 @@ def ruleSelectsPeer (np : NetPol) (peers : List NPPeer) (peer : KPeer) : Except 
           | .ip r => if CSet.isSubset r (ipBlockSet cidr excepts) then .ok true else go rest
     go peers
 
-/-- `GetEgressAllowedConns` / `GetIngressAllowedConns`: union over the rules selecting `other`,
-stopping at the first rule that makes the result all connections -/
+/-- `GetEgressAllowedConns` / `GetIngressAllowedConns`: union over the rules selecting `other`;
+every rule is examined (no early stop when the result becomes all connections), so a failing rule
+fails the policy wherever it stands -/
 def allowedConns (np : NetPol) (rules : List NPRule) (other : KPeer) (dst : KPeer) : Except Err ConnSet :=
   let rec go (res : ConnSet) : List NPRule → Except Err ConnSet
     | [] => .ok res
@@ -196,7 +197,7 @@ def allowedConns (np : NetPol) (rules : List NPRule) (other : KPeer) (dst : KPee
       else
         let rc ← ruleConnections r.ports (some dst)
         let res' := res.union rc
-        if res'.allowAll then pure res' else go res' rest
+        go res' rest
   go (ConnSet.mk' false) rules
 
 def egressAllowedConns (np : NetPol) (dst : KPeer) : Except Err ConnSet := np.allowedConns np.egress dst dst
